@@ -1645,6 +1645,12 @@ class Pool:
     @staticmethod
     def _help_stuff_finish(inqueue, task_handler, _pool):
         # task_handler may be blocked trying to put items on inqueue
+        if not task_handler.is_alive():
+            # No feeder thread (threads=False, or it has finished): nobody
+            # is blocked on the queue, and an idle worker sits in recv()
+            # holding the read lock until it is sent something -- which
+            # only a running feeder does (tell_others).
+            return
         debug('removing tasks from inqueue until task handler finished')
         inqueue._rlock.acquire()
         while task_handler.is_alive() and inqueue._reader.poll():
